@@ -1,5 +1,6 @@
-(* C10: the four store behaviours the harness runs the implementation against (Corr/Observe.v:
-   static = the bundled StaticStore, exact, sparse, superset) are faithful to the sheets they are
+(* C10: the five store behaviours the harness runs the implementation against (Corr/Observe.v:
+   static = the bundled StaticStore, exact, sparse, superset, poison = exact plus every
+   unrequested cell at a wrong value) are faithful to the sheets they are
    built on, so [run_program_refines_sheet] applies to each of them. *)
 From Coq Require Import Lia.
 From NS Require Import Run LedgerProofs SheetRun SheetProofs Observe.
@@ -53,8 +54,19 @@ Proof.
         apply (bfind_none_notin _ _ v0 Ev). apply in_flat_map. exists (a, l). split; [exact Hl|].
         cbn [fst snd]. apply in_flat_map. exists c. split; [exact Hc|]. rewrite E0, Ez. left. reflexivity.
     + unfold bget. destruct (bfind (a, c) B); reflexivity.
+    + (* poison: the requested cell is found in the first, exact, part *)
+      rewrite bfind_app.
+      match goal with |- context [bfind _ (flat_map ?f q)] => destruct (bfind (a, c) (flat_map f q)) as [v|] eqn:Ev end.
+      * refine (bfind_flat_map_some _ (fun k v => v = bget B (fst k) (snd k)) q (a, c) v _ Ev).
+        intros [a0 l0] k' v' _ Hin. cbn [fst snd] in Hin. apply in_map_iff in Hin. destruct Hin as (c0 & Hc0 & _).
+        injection Hc0 as <- <-. reflexivity.
+      * exfalso. destruct (requested_in q a c Hr) as (l & Hl & Hc).
+        apply (bfind_none_notin _ _ (bget B a c) Ev). apply in_flat_map. exists (a, l). split; [exact Hl|].
+        cbn [fst snd]. apply in_map_iff. exists c. split; [reflexivity|exact Hc].
   - intros n account key. unfold mk_store. eexists. split; [reflexivity|].
     destruct k; cbn [answer_meta]; try reflexivity.
+    + unfold meta_lookup. destruct (alookup account M) as [am|]; [|reflexivity].
+      destruct (alookup key am) as [v|]; [|reflexivity]. cbn [alookup]. rewrite String.eqb_refl. cbn [alookup]. now rewrite String.eqb_refl.
     + unfold meta_lookup. destruct (alookup account M) as [am|]; [|reflexivity].
       destruct (alookup key am) as [v|]; [|reflexivity]. cbn [alookup]. rewrite String.eqb_refl. cbn [alookup]. now rewrite String.eqb_refl.
     + unfold meta_lookup. destruct (alookup account M) as [am|]; [|reflexivity].
